@@ -170,3 +170,16 @@ Theorem C09_bound_only_with_source : forall k sh fs x,
   expand k sh fs = Ok x -> returned_field x = None -> x_bound x = None.
 Proof. exact Proofs.bound_only_with_source. Qed.
 Print Assumptions C09_bound_only_with_source.
+
+(* ================================================================== the enabled -> all index map *)
+
+(* the map at the root of the repaired defect 6329c3f, characterised exactly and unconditionally: it lists the
+   positions (among ALL fields) of exactly the fields not marked `ignore`, each once *)
+Theorem C09_enabled_indexes_exact : forall fs j,
+  In j (enabled_fields_indexes fs) <-> exists f, nth_error fs j = Some f /\ f_ignore f = false.
+Proof. exact Proofs.enabled_indexes_iff. Qed.
+Print Assumptions C09_enabled_indexes_exact.
+
+Theorem C09_enabled_indexes_nodup : forall fs, NoDup (enabled_fields_indexes fs).
+Proof. exact Proofs.enabled_indexes_nodup. Qed.
+Print Assumptions C09_enabled_indexes_nodup.
